@@ -33,6 +33,25 @@ var fsmChildren = map[string][]string{
 func constStr(v ssa.Value) (string, bool) { return constString(v) }
 
 func runC23(c *Ctx) {
+	c.Rule("C23.IDIOM", "PAIR: in the cluster FSM's apply functions, the two halves of a map idiom name the same map and key: a get-or-create stores the new set under the key it looked up, and a delete-when-empty removes the entry whose own set it found empty")
+	{
+		n := 0
+		for _, fn := range c.P.FuncsIn("internal/cluster/raft") {
+			isRestore := strings.Contains(strings.ToLower(fn.Name()), "restore") || strings.Contains(strings.ToLower(fn.Name()), "rebuild")
+			if isRestore {
+				continue
+			}
+			issues, k := mapIdiomIssues(fn)
+			n += k
+			for i, is := range issues {
+				c.Bad("C23.IDIOM", fmt.Sprintf("%s|%s#%d", fn.Name(), is.kind, i+1), is.pos, "%s", is.what)
+			}
+			if k > 0 && len(issues) == 0 {
+				c.OK("C23.IDIOM", fn.Name()+"|map-idioms", fn.Pos(), "%d get-or-create / delete-when-empty site(s), halves agree", k)
+			}
+		}
+		c.Check(n >= 1, "C23.IDIOM", "internal/cluster/raft|sites", 0, fmt.Sprintf("%d idiom sites inspected", n), "no map idiom site found (rule needs review)")
+	}
 	p := c.P
 	c.Rule("C23.PRIMARY", "DOM: every store of a non-empty value to primaryWriterID executes only where a lookup of that same id in f.nodes reported exists == true")
 	c.Rule("C23.UNIQUE", "FIELD: the writer state \"primary\" is given to a node record only by the function that stores that node's id into primaryWriterID, or by a helper that returns it only under id == primaryWriterID; in applyPromoteWriter the node demoted to standby is looked up by the FSM's own primaryWriterID, never by a payload field")
